@@ -88,7 +88,11 @@ class Report(object):
         """Instance floor: fewer matches than confirmed by hand => analysis broken."""
         got = sum(1 for o in self.obligations if o.rule == rule)
         self.floors[rule] = (n, got)
-        if got < n:
+        if not hasattr(self, '_known'):
+            self._known = set((k['rule'], k['key']) for k in load_known().get('known', []) if k['property'] == self.pid)
+        if got < n and not any(not o.ok and (o.rule, o.key) not in self._known for o in self.obligations):
+            # (when the rule already reports a violation, later instances may have been cut short;
+            #  the floor only guards against *vacuous passes*)
             raise AnalysisError('rule %s matched %d instance(s), floor is %d %s'
                                 % (rule, got, n, what))
 
